@@ -102,51 +102,113 @@ func (c *Ctx) ruleR13a(rule string) {
 				v("result", c.P.InstrPos(r), "Walk returns something else than true (abort) or the callback's own result")
 			}
 		}
-		// post-order: no child walk can run after f(node)
-		for _, rc := range append(append([]*ssa.Call{}, rec...), deleg...) {
-			if ssax.Reaches(fc.Block(), rc.Block(), true) && !(fc.Block() == rc.Block() && ssax.Before(rc, fc)) {
-				v("order", c.P.InstrPos(rc), "a child is walked after the callback ran on the node: not post-order")
-			}
-		}
 	}
-	// children recursion
-	okRec := false
-	for _, rc := range rec {
-		if len(rc.Call.Args) != 2 || rc.Call.Args[1] != f {
-			v("recursion callback", c.P.InstrPos(rc), "the recursive Walk is not given the same callback")
-			continue
+	// children recursion: Walk(child, f) over all of node.(NonTerminalNode).Children(), in Walk itself or in a
+	// helper that Walk hands the children and the callback to
+	isChildren := func(v ssa.Value) bool {
+		ch, ok := v.(*ssa.Call)
+		if !ok || !ch.Call.IsInvoke() || ch.Call.Method.Name() != "Children" {
+			return false
 		}
-		// argument is an element of Children() of the node asserted to NonTerminalNode
-		u, ok := rc.Call.Args[0].(*ssa.UnOp)
-		good := false
-		if ok && u.Op == token.MUL {
-			if ia, ok := u.X.(*ssa.IndexAddr); ok {
-				if ch, ok := ia.X.(*ssa.Call); ok && ch.Call.IsInvoke() && ch.Call.Method.Name() == "Children" {
-					if e, ok := ch.Call.Value.(*ssa.Extract); ok {
-						if ta, ok := e.Tuple.(*ssa.TypeAssert); ok && ta.X == node {
-							good = true
-						}
-					}
-					// the index must be the range index covering 0..len-1
-					if good && !isFullRangeIndex(ia.Index, ch) {
-						good = false
-					}
+		e, ok := ch.Call.Value.(*ssa.Extract)
+		if !ok {
+			return false
+		}
+		ta, ok := e.Tuple.(*ssa.TypeAssert)
+		return ok && ta.X == node
+	}
+	// recIn: in function g, a call Walk(elem, cb) ranging over all of slice-valued sl, aborting on true
+	recIn := func(g *ssa.Function, slOK func(ssa.Value) bool, cb ssa.Value) (*ssa.Call, string) {
+		var last string
+		for _, call := range ssax.Calls(g) {
+			rc, ok := call.(*ssa.Call)
+			if !ok || rc.Call.StaticCallee() != fn {
+				continue
+			}
+			if len(rc.Call.Args) != 2 || rc.Call.Args[1] != cb {
+				last = "the recursive Walk is not given the same callback"
+				continue
+			}
+			u, ok := rc.Call.Args[0].(*ssa.UnOp)
+			good := false
+			if ok && u.Op == token.MUL {
+				if ia, ok := u.X.(*ssa.IndexAddr); ok && slOK(ia.X) && isFullRangeIndex(ia.Index, ia.X) {
+					good = true
 				}
 			}
+			if !good {
+				last = "the recursive Walk does not range over all of node.(NonTerminalNode).Children()"
+				continue
+			}
+			if !ifTrueReturnsTrue(rc) {
+				last = "a child's walk returning true does not make the walk return true immediately: it goes on after the callback asked to stop"
+				continue
+			}
+			return rc, ""
 		}
-		if !good {
-			v("recursion argument", c.P.InstrPos(rc), "the recursive Walk does not range over all of node.(NonTerminalNode).Children()")
-			continue
-		}
-		if !ifTrueReturnsTrue(rc) {
-			v("child abort", c.P.InstrPos(rc), "a child's walk returning true does not make Walk return true immediately: the walk goes on after the callback asked to stop")
-			continue
-		}
+		return nil, last
+	}
+	okRec := false
+	why := ""
+	if rc, w := recIn(fn, isChildren, f); rc != nil {
 		okRec = true
+		rec = []*ssa.Call{rc}
 		c.R.Hold(rule, "parsley.Walk -> Walk(child, f) @"+c.P.InstrPos(rc), "ranges over Children(), aborts on true")
+	} else {
+		why = w
+		// through a helper: H(node.Children(), f) whose true result returns true at once
+		for _, call := range ssax.Calls(fn) {
+			hc, ok := call.(*ssa.Call)
+			if !ok {
+				continue
+			}
+			h := hc.Call.StaticCallee()
+			if h == nil || h == fn || !c.P.InLib(h) {
+				continue
+			}
+			si, fi := -1, -1
+			for i, a := range hc.Call.Args {
+				if isChildren(a) {
+					si = i
+				}
+				if a == ssa.Value(f) {
+					fi = i
+				}
+			}
+			if si < 0 || fi < 0 || si >= len(h.Params) || fi >= len(h.Params) {
+				continue
+			}
+			hs := h.Params[si]
+			rc, w := recIn(h, func(v ssa.Value) bool { return v == ssa.Value(hs) }, h.Params[fi])
+			if rc == nil {
+				why = w
+				continue
+			}
+			if !ifTrueReturnsTrue(hc) {
+				why = "the helper's true result does not make Walk return true immediately"
+				continue
+			}
+			// the helper must not invoke the callback itself
+			direct := false
+			for _, k := range ssax.Calls(h) {
+				if k.Common().Value == ssa.Value(h.Params[fi]) {
+					direct = true
+				}
+			}
+			if direct {
+				why = "the helper invokes the callback directly"
+				continue
+			}
+			okRec = true
+			rec = []*ssa.Call{hc}
+			c.R.Hold(rule, "parsley.Walk -> "+c.name(h)+" -> Walk(child, f) @"+c.P.InstrPos(rc), "ranges over Children() in a helper, aborts on true")
+		}
 	}
 	if !okRec {
-		v("no recursion", c.P.Pos(fn.Pos()), "no recursive Walk(child, f) over the children of a NonTerminalNode found: descendants are not visited (calling f(child) instead visits one level only)")
+		if why == "" {
+			why = "no recursive Walk(child, f) over the children of a NonTerminalNode found: descendants are not visited (calling f(child) instead visits one level only)"
+		}
+		v("no recursion", c.P.Pos(fn.Pos()), why)
 	}
 	okDel := false
 	for _, d := range deleg {
@@ -165,6 +227,18 @@ func (c *Ctx) ruleR13a(rule string) {
 	}
 	if !okDel {
 		v("no delegation", c.P.Pos(fn.Pos()), "no delegation to Walkable.Walk found")
+	}
+	// post-order: no child walk can run after f(node)
+	if len(fcalls) == 1 {
+		fc := fcalls[0]
+		for _, rc := range append(append([]*ssa.Call{}, rec...), deleg...) {
+			if ssax.Reaches(fc.Block(), rc.Block(), true) && !(fc.Block() == rc.Block() && ssax.Before(rc, fc)) {
+				v("order", c.P.InstrPos(rc), "a child is walked after the callback ran on the node: not post-order")
+			}
+			if !(rc.Block() == fc.Block() && ssax.Before(rc, fc)) && !ssax.Reaches(rc.Block(), fc.Block(), false) {
+				v("order", c.P.InstrPos(rc), "the callback cannot run after this child walk: not post-order")
+			}
+		}
 	}
 	// library Walkables
 	wi := c.lookupIface("parsley", "Walkable")
